@@ -612,6 +612,7 @@ def chk_resize(ctx, case):
     if st != "ok":
         ctx.fail("resize-raises", f"{what} raises {st}: {r}", rp)
         return st, r
+    r = {int(k): [int(x) for x in v] for k, v in r.items()}
     judge_resize(ctx, rp, what, gd, adj, S, lo, hi, sel, r)
     return st, r
 
@@ -674,7 +675,7 @@ def chk_search(ctx, case):
 
     def rec_resize(*a, **k):
         r = real_resize(*a, **k)
-        offered.append({kk: list(v) for kk, v in r.items()})
+        offered.append({int(kk): [int(x) for x in v] for kk, v in r.items()})
         return r
 
     subgraph.resize = rec_resize
@@ -695,6 +696,7 @@ def chk_search(ctx, case):
         if r != {}:
             ctx.fail("search-nonempty", f"{what} = {r}", rp)
         return st, r
+    r = {int(k): [(float(d), [int(x) for x in s]) for d, s in v] for k, v in r.items()}
     if sorted(r) != list(range(lo, hi + 1)):
         ctx.fail("search-sizes", f"{what} has sizes {sorted(r)}, requested {lo}..{hi}", rp)
         return st, r
